@@ -15,6 +15,7 @@ macro_rules! props {
 props! {
     "c01" c01,
     "c02" c02,
+    "c03" c03,
     "c04" c04,
     "c05" c05,
     "c06" c06,
